@@ -124,7 +124,10 @@ func collOps() []collOp {
 			_, err := db.Get(o)
 			return err
 		}, notFound},
-		{"GetByUUID", func(db *sod.DB, sh *shapeV, st []string) error { _, err := db.GetByUUID(sh.Zero(), first(st)); return err }, notFound},
+		{"GetByUUID", func(db *sod.DB, sh *shapeV, st []string) error {
+			_, err := db.GetByUUID(sh.Zero(), first(st))
+			return err
+		}, notFound},
 		{"Exist", func(db *sod.DB, sh *shapeV, st []string) error {
 			o := sh.Zero()
 			o.Initialize(first(st))
@@ -482,7 +485,7 @@ func runC17(c *Ctx) {
 		}
 	}
 	c.Meta(map[string]interface{}{
-		"rule": "(1) all ordered pairs (stored shape, current shape) over 12 struct variants that share package and type name (field added / removed / retyped / renamed / reordered, pointer vs value nesting, nested field retyped, tag added / removed / changed) x {0, 2} stored objects x 21 operations naming the collection, as first and as later operation on the handle; pair class computed by an independent reflection walk: structure different => ErrStructureChanged and byte-identical files (also after Control and Close); same structure but different constraints => Create refused with ErrFieldDescModif; other extension => ErrExtensionMismatch; compatible => operations succeed, data preserved, Control quiet. (2) Create with each of {cache on/off} x {async off, (2, 2 steps), (100, 2 steps)} as alphabet letters in BFS histories with pending writes (refinement continues, deleted objects never on disk, nothing lost at Close, second handle agrees) and as calls of a client against the running background writer over all schedules within 2 deviations (no panic, no blocking, nothing lost). Non-trivial = pairs of different shapes; histories with a settings change on non-empty collections.",
+		"rule":   "(1) all ordered pairs (stored shape, current shape) over 12 struct variants that share package and type name (field added / removed / retyped / renamed / reordered, pointer vs value nesting, nested field retyped, tag added / removed / changed) x {0, 2} stored objects x 21 operations naming the collection, as first and as later operation on the handle; pair class computed by an independent reflection walk: structure different => ErrStructureChanged and byte-identical files (also after Control and Close); same structure but different constraints => Create refused with ErrFieldDescModif; other extension => ErrExtensionMismatch; compatible => operations succeed, data preserved, Control quiet. (2) Create with each of {cache on/off} x {async off, (2, 2 steps), (100, 2 steps)} as alphabet letters in BFS histories with pending writes (refinement continues, deleted objects never on disk, nothing lost at Close, second handle agrees) and as calls of a client against the running background writer over all schedules within 2 deviations (no panic, no blocking, nothing lost). Non-trivial = pairs of different shapes; histories with a settings change on non-empty collections.",
 		"shapes": len(shapeVariants), "operations": len(ops), "settings_depth": depth,
 	})
 }
